@@ -101,7 +101,6 @@ def u_twins(ctx, kind, form="ct2x2x2"):
     ctx.assume(x >= 0)
     ctx.assume(y >= 0)
     old = symx.SymReal.__hash__
-    symx.SymReal.__hash__ = lambda self_: 0
     try:
         va = a._ipr._interp(x, y)
         vb = b._ipr._interp(x, y)
